@@ -621,7 +621,9 @@ def run_one(p, viol, want, noise_seed, fault_at=None, fault=None, gpfault=None, 
         if fault is None:
             tb = traceback.extract_tb(exc.__traceback__)
             inner = [f for f in tb if "pybads" in f.filename]
-            viol.add("C09.no_internal_error", key, exc=type(exc).__name__ + ": " + str(exc)[:200], where=("%s:%d" % (inner[-1].filename.split("/pybads/")[-1], inner[-1].lineno)) if inner else None)
+            cls = "budget-not-above-initial-design" if ("cannot convert float NaN to integer" in str(exc) and inner and inner[-1].name == "_get_gp_training_options") else "other"
+            viol.add("C09.no_internal_error", key, exc=type(exc).__name__ + ": " + str(exc)[:200], where=("%s:%d" % (inner[-1].filename.split("/pybads/")[-1], inner[-1].lineno)) if inner else None,
+                     **{"class": cls})
         else:
             if fault == "raise" and not isinstance(exc, SimError):
                 viol.add("C10.same_exception_type", key, got=type(exc).__name__)
